@@ -258,6 +258,9 @@ func (g *uciGen) positionLine() string {
 
 func (g *uciGen) newRoot() {
 	root := genRoot(g.rng, "")
+	if g.rng.IntN(40) == 0 {
+		root = genRoot(g.rng, "long-game")
+	}
 	g.game = root.Game()
 	g.newGameNext = g.rng.IntN(2) == 0
 }
@@ -313,6 +316,12 @@ func (g *uciGen) idle(w *uciWorld) {
 	switch g.stage {
 	case 0:
 		g.stage = 1
+		if r.IntN(40) == 0 {
+			// a GUI that changes its mind at once
+			g.send("quit")
+			g.ended = true
+			return
+		}
 		if r.IntN(10) != 0 {
 			g.send("uci")
 		}
@@ -498,8 +507,24 @@ func (g *uciGen) during(w *uciWorld) {
 	opts = append(opts, opt{tickW, func() {
 		g.queue = append(g.queue, UStep{Op: "tick", DUS: pick(r, []int64{1, 100, 1000, 10_000, 100_000, 1_000_000, 30_000_000})})
 	}})
-	opts = append(opts, opt{g.cfg.PIsready, func() { g.send("isready") }})
-	opts = append(opts, opt{g.cfg.PStop, func() { g.send("stop"); c.stopSent = true }})
+	opts = append(opts, opt{g.cfg.PIsready, func() {
+		g.send("isready")
+		for r.IntN(4) == 0 { // a burst
+			g.send("isready")
+		}
+	}})
+	opts = append(opts, opt{g.cfg.PStop, func() {
+		if c.ponder && !c.hitSent && r.IntN(2) == 0 {
+			g.send("ponderhit") // the hit and the stop arrive back to back
+			c.hitSent = true
+		}
+		g.send("stop")
+		if r.IntN(6) == 0 {
+			g.send("stop") // an impatient GUI
+		}
+		c.stopSent = true
+	}})
+	opts = append(opts, opt{0.15, func() { g.send(pick(r, []string{"", " ", "\t ", "   "})) }})
 	if c.ponder && !c.hitSent {
 		opts = append(opts, opt{1.5, func() { g.send("ponderhit"); c.hitSent = true }})
 	}
